@@ -46,7 +46,7 @@ pub fn build_sys<'a>() -> Sys<'a> {
 }
 
 /// `single_key`: one address holds both roles of the gateway (owner = operator) and of the gas service
-/// (owner = collector) at deployment
+/// (owner = collector) at deployment, and the stand-alone token is constructed with pool[EXTRA_A] as its minter
 pub fn build_sys_cfg<'a>(single_key: bool) -> Sys<'a> {
     let env = new_env();
     let mut pool: Vec<Address> = (0..POOL).map(|_| Address::generate(&env)).collect();
@@ -68,7 +68,9 @@ pub fn build_sys_cfg<'a>(single_key: bool) -> Sys<'a> {
         InterchainTokenService,
         (&pool[ITS_OWNER], &gw_id, &gas_id, sstr(&env, "hub-address"), sstr(&env, "stellar"), BytesN::from_array(&env, &empty_wasm_hash())),
     );
-    let token = register_native_token(&env, &pool[TOKEN_OWNER], None, h32("sys-token", 0), "Sys", "SYS", 7);
+    // in the alternative deployment the token is constructed with a minter (who may later be added again and removed)
+    let initial_minter = if single_key { Some(pool[EXTRA_A].clone()) } else { None };
+    let token = register_native_token(&env, &pool[TOKEN_OWNER], initial_minter, h32("sys-token", 0), "Sys", "SYS", 7);
     let asset_admin = Address::generate(&env);
     let asset = env.register_stellar_asset_contract_v2(asset_admin.clone()).address();
     Sys {
